@@ -1089,7 +1089,7 @@ def g_roundtrip(fmt, tier, seed):
 #                           records an interpretation line (the '*' beside a later spine's '*^') at the END of the note
 #                           it is sounding, and the later spine jumps forward to that position: its notes after a split
 #                           inside the measure come too late
-FIXES_PENDING = ("kern-interp-line-inside-note",)
+FIXES_PENDING = ()  # ("kern-interp-line-inside-note": repaired in /repo 7b7b2b6)
 
 
 def _empty_lower_staff(doc):
